@@ -1052,9 +1052,16 @@ pub fn rate_matches(value: Dec, num: Dec, den: Dec, got: Dec) -> bool {
             return true;
         }
         let diff = (l - r).abs();
-        let scale = r.abs().max(Dec::ONE);
-        // relative tolerance 1e-18 (okane stores reciprocals as 28-digit quotients)
-        return diff <= scale * Dec::new(1, 18);
+        // relative tolerance 1e-18 (okane stores reciprocals as 28-digit quotients) ...
+        if diff <= r.abs() * Dec::new(1, 18) {
+            return true;
+        }
+        // ... and an absolute one for tiny results: a quotient keeps 28 decimal places, so a
+        // value of 1e-11 carries only 17 significant digits
+        if let Some(exp) = value.checked_mul(num).and_then(|x| x.checked_div(den)) {
+            return (got - exp).abs() <= Dec::new(1, 22);
+        }
+        return false;
     }
     false
 }
